@@ -497,7 +497,7 @@ pub fn run_c03(opts: &Opts) -> Report {
     use crate::engine::run_sub;
     let mut rep = Report::new("C03", "exploration");
     rep.assumptions = vec![
-        "no generated range line covers U+0000 (characters ≥ U+10000 would take its class: open known finding)".into(),
+        "characters ≥ U+10000 are removed from sentences when a generated range line covers U+0000 (they would take its class: open known finding)".into(),
         "every category has ≥ 1 unk.def entry (open known finding of C01/C10 otherwise)".into(),
         "ignore_space=true only on dictionaries meeting the C12 precondition".into(),
         "'single character if nothing else was produced' counts lexicon matches as something (DESIGN 9)".into(),
